@@ -31,7 +31,7 @@ def _content(c, n):
 
 
 def _params(tier):
-    lens = [0, 1, 16, 127, 128, 255, 256] if tier == "quick" else [0, 1, 2, 16, 17, 126, 127, 128, 129, 255, 256, 257, 1000, 65535, 65536, 65537]
+    lens = [0, 1, 16, 127, 128, 255, 256, 65535, 65536] if tier == "quick" else [0, 1, 2, 16, 17, 126, 127, 128, 129, 255, 256, 257, 1000, 65535, 65536, 65537]
     kis = [0, 1, 32, 36, 127, 128, 255, 256, 520, 800]
     out = []
     for i, n in enumerate(lens):
@@ -44,7 +44,7 @@ def _params(tier):
 @harness(P, params=_params, max_steps=400000,
          bounds="blob values: key identifier with version/flags/L0/L1/L2 symbolic in [0,2^32), symbolic root key id, key_info of sizes {0,1,32,36,127,128,255,256,520,800} (symbolic "
          "content), names from {empty, ASCII, BMP, non-BMP}; 4 SID shapes (1..15 sub-authorities, extreme values); enc_cek 40 symbolic bytes; encrypted content of listed lengths "
-         "across the DER length-form boundaries (0,1,16,127,128,255,256 quick; ..,65535,65536,65537 thorough) with symbolic first/last octets; GCM parameters present (12 symbolic "
+         "across the DER length-form boundaries (0,1,16,127,128,255,256,65535,65536 quick; more incl. 65537 thorough) with symbolic first/last octets; GCM parameters present (12 symbolic "
          "nonce bytes) / absent; both layouts", outside="content lengths and key_info sizes not listed",
          must_reach=("in-envelope: bytes equal the Windows CMS template", "trailing: bytes equal the Windows CMS template", "decode(encode(x)) == x (both layouts)",
                      "re-encoding a decoded blob gives identical bytes"))
